@@ -1,5 +1,6 @@
 import Driver.Common
 import UralModel.Model.Quote
+import UralModel.Model.QuoteAuth
 import UralModel.Model.Canonicalize
 import UralModel.Gen.QuoteTables
 /-! Driver handler for `ural/quote.py` (C14; also used by C01/C02). -/
@@ -21,11 +22,25 @@ def unquoterNames : List String :=
   ["safely_unquote_auth_item", "safely_unquote_path", "safely_unquote_query_item",
     "safely_unquote_fragment"]
 
+/-- the model of the unquoter `fn`: the partial with its unsafe set; for a user name / password the
+partial followed by the re-quoting of the NFKC look-alikes of a delimiter (FX-C01-NFKCUSERINFO) -/
+def unquoterOf (fn : String) : Option (List Char → List Char) :=
+  match fn with
+  | "safely_unquote_auth_item" => some safelyUnquoteAuthItem
+  | _ => (unsafeOf fn).map safelyUnquote
+
+/-- the same in the order of the Python code -/
+def unquoterPostOf (fn : String) : Option (List Char → List Char) :=
+  match fn with
+  | "safely_unquote_auth_item" =>
+    some fun s => requoteNfkc (safelyUnquotePost Gen.Quote.unsafeForAuthItem s)
+  | _ => (unsafeOf fn).map safelyUnquotePost
+
 def call (fn : String) (s : List Char) : Option (List Char) :=
   match fn with
   | "safely_quote" => some (safelyQuote s)
   | "upper_quoted" => some (upperQuoted s)
-  | _ => (unsafeOf fn).map fun U => safelyUnquote U s
+  | _ => (unquoterOf fn).map fun u => u s
 
 def handle (f : String) (j : Json) : Option Json :=
   match f with
@@ -39,8 +54,8 @@ def handle (f : String) (j : Json) : Option Json :=
       -- `post`: the unquoter computed in the order of the Python code (decode, then the two
       -- re-escaping passes: `safelyUnquotePost`, proved equal to `safelyUnquote`)
       if fieldBool j "post" then
-        match unsafeOf (fieldStr j "fn") with
-        | some U => some (jstr (unchars (safelyUnquotePost U s)))
+        match unquoterPostOf (fieldStr j "fn") with
+        | some u => some (jstr (unchars (u s)))
         | none => some (jerr "bad-fn")
       else
       match call (fieldStr j "fn") s with
@@ -52,9 +67,8 @@ def handle (f : String) (j : Json) : Option Json :=
     -- then upper(upper s), q(upper s), upper(q s), q(q s)
     let s := chars (fieldStr j "s")
     let per := unquoterNames.flatMap fun fn =>
-      match unsafeOf fn with
-      | some U =>
-        let u := safelyUnquote U
+      match unquoterOf fn with
+      | some u =>
         [safelyQuote (u s), u (safelyQuote (u s)), safelyQuote (u (safelyQuote (u s))), u (u s),
           u (upperQuoted s), upperQuoted (u s)]
       | none => []
